@@ -14,6 +14,7 @@ guard clauses vs nested ifs, swapped if/else arms, renamed locals, extracted / h
 from __future__ import annotations
 
 import ast
+import re
 import json
 import os
 from typing import Dict, List
@@ -38,42 +39,118 @@ def _generalise(txt: str) -> str:
     return generalise(txt)
 
 
-def expand_facts(ctx: Ctx, f, facts, depth: int = 3):
-    """facts with boolean locals replaced by the literals of their (single) definition: `x = a and not b; if x:` gives (a, T), (b, F)."""
-    defs: Dict[str, List[ast.AST]] = {}
-    for n in ctx.own_nodes(f):
-        if isinstance(n, (ast.Assign, ast.AnnAssign)) and getattr(n, "value", None) is not None:
-            tg = n.targets[0] if isinstance(n, ast.Assign) else n.target
-            if isinstance(tg, ast.Name):
-                defs.setdefault(tg.id, []).append(n.value)
-    # hoisted side / object aliases (`other = OTHER_SIDE[side]`, `provider = self.providers[side]`, `se = sync[changed]`) are replaced by what they stand for
-    alias = {}
-    for k, v in defs.items():
-        if len(v) == 1:
-            e0 = v[0]
-            if isinstance(e0, ast.Call) and isinstance(e0.func, ast.Name) and e0.func.id == "other_side" and len(e0.args) == 1:
-                e0 = ast.Subscript(value=ast.Name(id="OTHER_SIDE", ctx=ast.Load()), slice=e0.args[0], ctx=ast.Load())
-            if all(isinstance(x, (ast.Attribute, ast.Subscript, ast.Name, ast.Load, ast.Constant, ast.BinOp, ast.Sub)) for x in ast.walk(e0)) and not isinstance(e0, (ast.Name, ast.Constant)):
-                alias[k] = e0
+class _Norm:
+    """Per-function normaliser of fact / site expressions: hoisted aliases are replaced by what they stand for, and every side expression by a role token
+    (SIDE0 = the function's first side base - its side parameter or loop variable -, OTHER0 = its complement, LOCAL / REMOTE for constants), so that
+    `sync[synced]`, `sync[OTHER_SIDE[changed]]`, `sync[other]` with `other = other_side(changed)` all read `sync[OTHER0]` - and `sync[changed]` does not."""
 
-    class _U(ast.NodeTransformer):
-        def visit_Name(self, n):
-            if isinstance(n.ctx, ast.Load) and n.id in alias:
-                return ast.copy_location(self.visit(ast.parse(ast.unparse(alias[n.id]), mode="eval").body), n)
-            return n
+    def __init__(self, ctx: Ctx, f):
+        from sa.sides import SideAnalysis, canon as scanon
+        self.ctx, self.f = ctx, f
+        sa = getattr(ctx, "_decision_sides", None)
+        if sa is None:
+            sa = ctx._decision_sides = SideAnalysis(ctx)
+        self.sa, self.scanon = sa, scanon
+        defs: Dict[str, List[ast.AST]] = {}
+        for n in ctx.own_nodes(f):
+            if isinstance(n, (ast.Assign, ast.AnnAssign)) and getattr(n, "value", None) is not None:
+                tg = n.targets[0] if isinstance(n, ast.Assign) else n.target
+                if isinstance(tg, ast.Name):
+                    defs.setdefault(tg.id, []).append(n.value)
+            elif isinstance(n, (ast.For, ast.comprehension)) and isinstance(n.target, ast.Name):
+                defs.setdefault(n.target.id, []).append(None)
+                defs[n.target.id].append(None)      # loop variables are never single-definition aliases
+        self.defs = {k: [x for x in v] for k, v in defs.items()}
+        self.alias = {}
+        for k, v in defs.items():
+            if len(v) == 1 and v[0] is not None:
+                e0 = v[0]
+                if all(isinstance(x, (ast.Attribute, ast.Subscript, ast.Name, ast.Load, ast.Constant)) for x in ast.walk(e0)) and not isinstance(e0, (ast.Name, ast.Constant)) \
+                        and not (isinstance(e0, ast.Subscript) and isinstance(e0.value, ast.Name) and e0.value.id == "OTHER_SIDE"):
+                    self.alias[k] = e0
+        # names used in a side position, and the bases they resolve to
+        cand = []
+        for n in sorted([x for x in ctx.own_nodes(f) if isinstance(x, (ast.Subscript, ast.Call, ast.BinOp))], key=lambda x: (x.lineno, x.col_offset)):
+            e = None
+            if isinstance(n, ast.Subscript):
+                e = n.slice
+            elif isinstance(n, ast.Call) and isinstance(n.func, ast.Name) and n.func.id == "other_side" and len(n.args) == 1:
+                e = n.args[0]
+            elif isinstance(n, ast.BinOp) and isinstance(n.op, ast.Sub) and isinstance(n.left, ast.Constant) and n.left.value == 1:
+                e = n.right
+            if isinstance(e, ast.Name) and e.id not in ("LOCAL", "REMOTE") and e.id not in self.alias:
+                cand.append(e.id)
+        self.side_names = set(cand)
+        params = [p for p in f.all_param_names()]
+        bases: List[str] = []
+        for nm in [p for p in params if p in self.side_names] + cand:
+            sd = self.sa.side_expr(f, ast.Name(id=nm, ctx=ast.Load()))
+            if sd is not None and not sd[0].startswith("#") and sd[0] not in bases:
+                bases.append(sd[0])
+        self.bases = bases
 
-        def visit_Call(self, c):
-            self.generic_visit(c)
-            if isinstance(c.func, ast.Name) and c.func.id == "other_side" and len(c.args) == 1:
-                return ast.copy_location(ast.Subscript(value=ast.Name(id="OTHER_SIDE", ctx=ast.Load()), slice=c.args[0], ctx=ast.Load()), c)
-            return c
+    def token(self, e):
+        sd = self.scanon(self.sa.side_expr(self.f, e))
+        if sd is None:
+            return None
+        if sd[0] == "#0":
+            return "LOCAL"
+        if sd[0] == "#1":
+            return "REMOTE"
+        if sd[0] in self.bases:
+            return "%s%d" % ("OTHER" if sd[1] else "SIDE", self.bases.index(sd[0]))
+        return None
 
-    def unalias_txt(txt):
+    def expr(self, e: ast.AST) -> ast.AST:
+        me = self
+
+        class U(ast.NodeTransformer):
+            def _tok(self, n):
+                t = me.token(n)
+                return ast.copy_location(ast.Name(id=t, ctx=ast.Load()), n) if t else None
+
+            def visit_Name(self, n):
+                if isinstance(n.ctx, ast.Load) and n.id in me.alias:
+                    return ast.copy_location(self.visit(ast.parse(ast.unparse(me.alias[n.id]), mode="eval").body), n)
+                if n.id in me.side_names:
+                    return self._tok(n) or n
+                return n
+
+            def visit_Subscript(self, n):
+                if isinstance(n.value, ast.Name) and n.value.id == "OTHER_SIDE":
+                    return self._tok(n) or self.generic_visit(n)
+                return self.generic_visit(n)
+
+            def visit_Call(self, c):
+                if isinstance(c.func, ast.Name) and c.func.id == "other_side" and len(c.args) == 1:
+                    return self._tok(c) or self.generic_visit(c)
+                return self.generic_visit(c)
+
+            def visit_BinOp(self, b):
+                if isinstance(b.op, ast.Sub) and isinstance(b.left, ast.Constant) and b.left.value == 1:
+                    return self._tok(b) or self.generic_visit(b)
+                return self.generic_visit(b)
+        return U().visit(ast.parse(ast.unparse(e), mode="eval").body)
+
+    def txt(self, txt: str) -> str:
         try:
-            e = ast.parse(txt, mode="eval")
+            e = ast.parse(txt, mode="eval").body
         except SyntaxError:
             return txt
-        return ast.unparse(_U().visit(e))
+        return ast.unparse(self.expr(e))
+
+
+def _norm(ctx: Ctx, f) -> _Norm:
+    cache = ctx.__dict__.setdefault("_decision_norms", {})
+    if f.qname not in cache:
+        cache[f.qname] = _Norm(ctx, f)
+    return cache[f.qname]
+
+
+def expand_facts(ctx: Ctx, f, facts, depth: int = 3):
+    """facts with boolean locals replaced by the literals of their (single) definition: `x = a and not b; if x:` gives (a, T), (b, F); then normalised (_Norm)."""
+    nm = _norm(ctx, f)
+    defs = nm.defs
     out = set(facts)
     for _ in range(depth):
         new = set()
@@ -93,7 +170,7 @@ def expand_facts(ctx: Ctx, f, facts, depth: int = 3):
         out = new
         if not changed:
             break
-    return {(unalias_txt(t), p) for (t, p) in out}
+    return {(nm.txt(t), p) for (t, p) in out}
 
 
 def _pure_call(c) -> bool:
@@ -135,13 +212,13 @@ def decision_sites(ctx: Ctx):
                     elif isinstance(v, (ast.Constant, ast.Name)) or (isinstance(v, ast.Tuple) and all(isinstance(e, (ast.Constant, ast.Name)) for e in v.elts)):
                         shapes.append("return " + (_generalise(ast.unparse(v)) if v is not None and not isinstance(v, ast.Constant) else ast.unparse(v) if v is not None else "None"))
                     elif isinstance(v, ast.Call):
-                        shapes.append("return " + _call_shape(v))
+                        shapes.append("return " + _call_shape(v, _norm(ctx, f)))
                     else:
                         shapes.append("return <expr>")
                 elif isinstance(st, ast.Expr) and isinstance(st.value, ast.Call) and not _is_log(st.value):
                     if not (isinstance(st.value.func, ast.Attribute) and st.value.func.attr in ("append", "extend", "add", "insert", "update", "sort", "remove", "discard", "pop")
                             and not ast.unparse(st.value.func.value).startswith("self")):
-                        shapes.append(_call_shape(st.value))
+                        shapes.append(_call_shape(st.value, _norm(ctx, f)))
                 elif isinstance(st, ast.Continue):
                     shapes.append("continue")
                 elif isinstance(st, ast.Raise):
@@ -149,12 +226,12 @@ def decision_sites(ctx: Ctx):
                 elif isinstance(st, (ast.Assign, ast.AugAssign)):
                     tg = st.targets[0] if isinstance(st, ast.Assign) else st.target
                     if isinstance(tg, ast.Attribute) and tg.attr in ("priority", "ignored", "exists", "changed", "sync_path", "sync_hash", "oid", "path", "hash"):
-                        shapes.append("store .%s" % tg.attr)
+                        shapes.append("store %s.%s" % (_generalise(ast.unparse(_norm(ctx, f).expr(tg.value))), tg.attr))
                     elif isinstance(tg, ast.Subscript) and isinstance(st, ast.Assign) and isinstance(st.value, ast.Subscript):
-                        shapes.append("graft $a[$s] = $b[$s]")
+                        shapes.append("graft %s" % _generalise("(%s, %s)" % (ast.unparse(_norm(ctx, f).expr(tg)), ast.unparse(_norm(ctx, f).expr(st.value)))))
                     elif isinstance(st, ast.Assign) and isinstance(st.value, ast.Call) and not _is_log(st.value) and isinstance(st.value.func, ast.Attribute) \
                             and ast.unparse(st.value.func.value).startswith("self"):
-                        shapes.append("call " + _call_shape(st.value))
+                        shapes.append("call " + _call_shape(st.value, _norm(ctx, f)))
                 for sh in shapes:
                     if not ctx.facts(f).reachable(n):
                         continue
@@ -163,14 +240,23 @@ def decision_sites(ctx: Ctx):
     return out
 
 
-def _call_shape(c: ast.Call) -> str:
+_TOKEN = re.compile(r"^(SIDE\d+|OTHER\d+|LOCAL|REMOTE)$")
+
+
+def _call_shape(c: ast.Call, nm: "_Norm" = None) -> str:
+    """receiver kind, method and the side arguments: `self.update_entry(sync, synced, ...)` is `self.update_entry(OTHER0)`"""
+    if nm is not None:
+        c = nm.expr(c)
     fn = c.func
+    sides = [a.id for a in c.args if isinstance(a, ast.Name) and _TOKEN.match(a.id)] + \
+            ["%s=%s" % (k.arg, k.value.id) for k in c.keywords if k.arg and isinstance(k.value, ast.Name) and _TOKEN.match(k.value.id)]
     if isinstance(fn, ast.Attribute):
         recv = ast.unparse(fn.value)
-        recv = "self" if recv == "self" else ("self.state" if recv == "self.state" else ("self.providers[$s]" if recv.startswith("self.providers[") else
-               ("self._nmgr" if recv in ("self._nmgr", "self.nmgr") else "$o")))
-        return "%s.%s()" % (recv, fn.attr)
-    return "%s()" % ast.unparse(fn)
+        sub = "[%s]" % fn.value.slice.id if isinstance(fn.value, ast.Subscript) and isinstance(fn.value.slice, ast.Name) and _TOKEN.match(fn.value.slice.id) else ""
+        recv = "self" if recv == "self" else ("self.state" if recv == "self.state" else ("self.providers" + (sub or "[$s]") if recv.startswith("self.providers[") else
+               ("self._nmgr" if recv in ("self._nmgr", "self.nmgr") else "$o" + sub)))
+        return "%s.%s(%s)" % (recv, fn.attr, ", ".join(sides))
+    return "%s(%s)" % (ast.unparse(fn), ", ".join(sides))
 
 
 def table_path():
